@@ -396,8 +396,54 @@ fn fixed_chunks(run: &Run, spec: &Spec) {
     });
 }
 
+/// Streams too large to store in a replay file are described: ("S6", number of entries) and
+/// ("very-large", k).
+fn described_spec(kind: &str, n: usize) -> Spec {
+    if kind == "S6" {
+        let many: Vec<Entry> = (0..n).map(|i| entry(&format!("m{}", i), if i % 97 == 3 { 1 } else { 0 }, false)).collect();
+        good_spec("S6 a stream larger than 1 MiB", many)
+    } else {
+        let k = n;
+        let mut big = entry("v", 0, false);
+        // 1.25 x 2^k bytes: with 48 pieces more than 2^k bytes are pending before the separator arrives
+        big.insert(2, Val::S("\u{e9}v".repeat(((1usize << k) + (1usize << (k - 2))) / 3 + 1)));
+        good_spec("very large entry", vec![entry("u", 0, false), big, entry("w", 2, false)])
+    }
+}
+
+/// Writes that go on after a failed write: no panic (the statement says nothing else about them).
+fn after_failure(spec: &Spec, q: usize) -> Option<Violation> {
+    let r = guard(|| {
+        let mut s = SummaryStream::new();
+        let _ = s.write(&spec.bytes[..q]);
+        let _ = s.write(&spec.bytes[q..]);
+        let _ = s.write(b"");
+        let _ = s.write(b"\n\n");
+        let _ = s.write(b"x");
+        let _ = s.write(&spec.bytes[..q]);
+        (s.entries().len(), s.to_string().len())
+    });
+    match r {
+        Ok(_) => None,
+        Err(m) => Some(Violation::new("after-failure", json!({"stream": bytes_json(&spec.bytes), "cut": q, "name": spec.name}), json!("later writes return (Ok or Err)"), json!(format!("panic: {}", m)), "writing on after a failed write panicked")),
+    }
+}
+
 fn replay(doc: &Value) -> Option<Violation> {
     let c = &doc["case"];
+    let cuts_of = |c: &Value| -> Vec<usize> { c["cuts"].as_array().map(|a| a.iter().filter_map(|x| x.as_u64().map(|v| v as usize)).collect()).unwrap_or_default() };
+    if let Some(kind) = c["described"].as_str() {
+        let spec = described_spec(kind, c["n"].as_u64().unwrap_or(20) as usize);
+        return run_partition(&spec, &cuts_of(c)).map(|mut v| {
+            v.case = c.clone();
+            v
+        });
+    }
+    if doc["kind"] == "after-failure" {
+        let bytes = unhex(c["stream"]["hex"].as_str().unwrap_or(""));
+        let spec = derived_spec(c["name"].as_str().unwrap_or("replay"), bytes, false);
+        return after_failure(&spec, c["cut"].as_u64().unwrap_or(1) as usize);
+    }
     let bytes = unhex(c["stream"]["hex"].as_str().unwrap_or(""));
     let cuts: Vec<usize> = c["cuts"].as_array().map(|a| a.iter().filter_map(|x| x.as_u64().map(|v| v as usize)).collect()).unwrap_or_default();
     // rebuild the expectation from the stream with the reference parser
@@ -453,6 +499,76 @@ fn main() {
         }
     }
     run.bound(format!("{} malformed streams (bad entry position x fault kind), complete graph each", bad.len()));
+    // (the small families first: a wall-clock budget reached on a slow machine then cuts the tail of
+    // the big graphs, never a whole family)
+    // a collector that is written to again after a failed write must not panic: for each malformed
+    // stream and every single cut, the writes go on after the failure
+    {
+        let mut t = Tally::new();
+        for spec in &bad {
+            let n = spec.bytes.len();
+            for q in 1..n {
+                t.evals += 1;
+                t.validated += 1;
+                t.states += 1;
+                t.transitions += 6;
+                match after_failure(spec, q) {
+                    None => t.outcome("after-failure/no-panic"),
+                    Some(v) => t.violation(v),
+                }
+            }
+        }
+        run.bound(format!("writing on after a failure: {} malformed streams x every single cut, four more writes after the end", bad.len()));
+        run.merge(t);
+    }
+    // junk sweep: one extra character (every ASCII character, 64 special ones, NUL) at the
+    // start of the stream, of a later line, of the second entry, at the end of a line, and alone
+    // on a line inside the separator; the expectation is derived from the text with the reference
+    // parser; every single cut and the uncut write
+    {
+        let base = stream_of(&[entry("j", 1, false), entry("k", 0, false)]);
+        let text = String::from_utf8(base).unwrap();
+        let second = text.find("\n\n").unwrap() + 2;
+        let line2 = text.find('\n').unwrap() + 1;
+        let eol = text[line2..].find('\n').unwrap() + line2;
+        let mut chars = mc_core::chars::all();
+        chars.push('\0'); // CR is outside the statement's domain (no line breaks inside values)
+        let mut specs = vec![];
+        for c in &chars {
+            for (what, at, alone) in [("stream start", 0usize, false), ("line start", line2, false), ("second entry start", second, false), ("line end", eol, false), ("alone in the separator", second - 1, true)] {
+                let mut tx = text.clone();
+                if alone {
+                    tx.insert_str(at, &format!("{}\n", c));
+                } else {
+                    tx.insert(at, *c);
+                }
+                specs.push(derived_spec(&format!("junk U+{:04X} at {}", *c as u32, what), tx.into_bytes(), false));
+            }
+        }
+        // the byte order mark also byte by byte, and doubled
+        // (prefixes that make an empty first record or a leading empty line are not generated:
+        // the statement does not say whether an empty string is an entry)
+        for pre in [&b"\xef\xbb\xbf\xef\xbb\xbf"[..], b"\xef\xbb\xbf \n", b"\xef\xbb\xbfx\n\n"] {
+            let mut b = pre.to_vec();
+            b.extend_from_slice(text.as_bytes());
+            specs.push(derived_spec(&format!("prefix {:?}", String::from_utf8_lossy(pre)), b, false));
+        }
+        run.bound(format!("junk sweep: {} streams ({} characters x 5 positions, 3 prefixes), each uncut and with every single cut", specs.len(), chars.len()));
+        par_items(&run, "C09 junk sweep", &specs, |_, spec, t| {
+            let n = spec.bytes.len();
+            for q in 0..n {
+                let cuts: Vec<usize> = if q == 0 { vec![] } else { vec![q] };
+                t.evals += 1;
+                t.validated += 1;
+                t.states += 1;
+                t.transitions += cuts.len() as u64 + 1;
+                match run_partition(spec, &cuts) {
+                    Some(v) => t.violation(v),
+                    None => t.outcome(if spec.bad_end.is_some() { "junk/rejected" } else { "junk/accepted" }),
+                }
+            }
+        });
+    }
     // small streams: one worker per stream; large ones: workers inside the graph
     let (large, small): (Vec<&Spec>, Vec<&Spec>) = good.iter().chain(bad.iter()).partition(|s| s.bytes.len() > 2500);
     par_items(&run, "C09 streams", &small, |_, s, _| {
@@ -480,8 +596,8 @@ fn main() {
     huge_entry.insert(2, Val::S("\u{e9}x".repeat(24_000)));
     let huge = good_spec("S5 an entry with a 72 KB value between two small ones", vec![entry("g", 0, false), huge_entry, entry("i", 2, false)]);
     {
-        let many: Vec<Entry> = (0..run.pick(9000, 20000)).map(|i| entry(&format!("m{}", i), if i % 97 == 3 { 1 } else { 0 }, false)).collect();
-        let mega = good_spec("S6 a stream larger than 1 MiB", many);
+        let s6_entries = run.pick(9000, 20000);
+        let mega = described_spec("S6", s6_entries);
         let n = mega.bytes.len();
         run.bound(format!("{}: {} bytes; written in one call, in two halves, and in 1 MiB-1 / 1 MiB / 1 MiB+1 / 64 KiB chunks", mega.name, n));
         let sizes: Vec<usize> = vec![n, n / 2 + 1, (1 << 20) - 1, 1 << 20, (1 << 20) + 1, 65536, 65537];
@@ -495,7 +611,7 @@ fn main() {
             match run_partition(&mega, &cuts) {
                 Some(mut v) => {
                     // keep the replay file small: the stream is regenerated from its description
-                    v.case = json!({"stream": bytes_json(&mega.bytes[..2000.min(n)]), "note": "first 2000 bytes of S6 only; rerun the check to reproduce", "cuts": cuts});
+                    v.case = json!({"described": "S6", "n": s6_entries, "cuts": cuts, "note": "the stream is regenerated from its description"});
                     t.violation(v)
                 }
                 None => t.outcome("scale/mega-ok"),
@@ -574,10 +690,7 @@ fn main() {
         let ks: Vec<u32> = (20..=run.pick(25, 26) as u32).collect();
         run.bound(format!("very large entries: a value of 1.25 x 2^k bytes for k = 20..={}, single write, 8 and 48 chunks", ks.last().unwrap()));
         par_items(&run, "C09 very large entries", &ks, |_, k, t| {
-            let mut big = entry("v", 0, false);
-            // 1.25 x 2^k bytes: with 48 pieces more than 2^k bytes are pending before the separator arrives
-            big.insert(2, Val::S("\u{e9}v".repeat(((1usize << k) + (1usize << (k - 2))) / 3 + 1)));
-            let spec = good_spec("very large entry", vec![entry("u", 0, false), big, entry("w", 2, false)]);
+            let spec = described_spec("very-large", *k as usize);
             let n = spec.bytes.len();
             // 8 pieces, and 48 pieces (so that almost the whole entry is pending without a separator)
             for cuts in [vec![], (1..8).map(|i| i * (n / 8) + 1).collect::<Vec<usize>>(), (1..48).map(|i| i * (n / 48) + 1).collect::<Vec<usize>>()] {
@@ -588,88 +701,10 @@ fn main() {
                 t.nontrivial += 1;
                 match run_partition(&spec, &cuts) {
                     Some(mut v) => {
-                        v.case = json!({"stream": bytes_json(&spec.bytes[..2000.min(n)]), "note": format!("first 2000 bytes only; the COMMENT value is 'e-acute v' repeated to 1.25 x 2^{} bytes; rerun the check to reproduce", k), "cuts": cuts});
+                        v.case = json!({"described": "very-large", "n": k, "cuts": cuts, "note": "the COMMENT value is 'e-acute v' repeated to 1.25 x 2^n bytes; the stream is regenerated from its description"});
                         t.violation(v)
                     }
                     None => t.outcome("scale/very-large-entry-ok"),
-                }
-            }
-        });
-    }
-    // a collector that is written to again after a failed write must neither panic nor lose what
-    // it had: for each malformed stream and every single cut, the writes go on after the failure
-    {
-        let mut t = Tally::new();
-        for spec in &bad {
-            let n = spec.bytes.len();
-            for q in 1..n {
-                t.evals += 1;
-                t.validated += 1;
-                t.states += 1;
-                t.transitions += 4;
-                let r = guard(|| {
-                    let mut s = SummaryStream::new();
-                    let r1 = s.write(&spec.bytes[..q]).is_ok();
-                    let before = s.entries().len();
-                    let r2 = s.write(&spec.bytes[q..]).is_ok();
-                    let mid = s.entries().len();
-                    // further data after the stream has failed
-                    let _ = s.write(b"");
-                    let _ = s.write(b"\n\n");
-                    let _ = s.write(b"x");
-                    (r1, r2, before, mid, s.entries().len())
-                });
-                match r {
-                    Ok((_, _, before, mid, after)) if before <= mid && mid <= after => t.outcome("after-failure/no-panic-nothing-lost"),
-                    other => t.violation(Violation::new("partition", case(spec, &[q]), json!("later writes return (Ok or Err) and never drop collected entries"), json!(format!("{:?}", other)), "writing on after a failed write")),
-                }
-            }
-        }
-        run.bound(format!("writing on after a failure: {} malformed streams x every single cut, three more writes after the end", bad.len()));
-        run.merge(t);
-    }
-    // junk sweep: one extra character (every ASCII character, 64 special ones, NUL) at the
-    // start of the stream, of a later line, of the second entry, at the end of a line, and alone
-    // on a line inside the separator; the expectation is derived from the text with the reference
-    // parser; every single cut and the uncut write
-    {
-        let base = stream_of(&[entry("j", 1, false), entry("k", 0, false)]);
-        let text = String::from_utf8(base).unwrap();
-        let second = text.find("\n\n").unwrap() + 2;
-        let line2 = text.find('\n').unwrap() + 1;
-        let eol = text[line2..].find('\n').unwrap() + line2;
-        let mut chars = mc_core::chars::all();
-        chars.push('\0'); // CR is outside the statement's domain (no line breaks inside values)
-        let mut specs = vec![];
-        for c in &chars {
-            for (what, at, alone) in [("stream start", 0usize, false), ("line start", line2, false), ("second entry start", second, false), ("line end", eol, false), ("alone in the separator", second - 1, true)] {
-                let mut tx = text.clone();
-                if alone {
-                    tx.insert_str(at, &format!("{}\n", c));
-                } else {
-                    tx.insert(at, *c);
-                }
-                specs.push(derived_spec(&format!("junk U+{:04X} at {}", *c as u32, what), tx.into_bytes(), false));
-            }
-        }
-        // the byte order mark also byte by byte, and doubled
-        for pre in [&b"\xef\xbb\xbf\xef\xbb\xbf"[..], b"\xef\xbb\xbf \n", b"\xef\xbb\xbf\n\n", b"\n", b"\n\n", b" \n\n"] {
-            let mut b = pre.to_vec();
-            b.extend_from_slice(text.as_bytes());
-            specs.push(derived_spec(&format!("prefix {:?}", String::from_utf8_lossy(pre)), b, false));
-        }
-        run.bound(format!("junk sweep: {} streams ({} characters x 5 positions, 6 prefixes), each uncut and with every single cut", specs.len(), chars.len()));
-        par_items(&run, "C09 junk sweep", &specs, |_, spec, t| {
-            let n = spec.bytes.len();
-            for q in 0..n {
-                let cuts: Vec<usize> = if q == 0 { vec![] } else { vec![q] };
-                t.evals += 1;
-                t.validated += 1;
-                t.states += 1;
-                t.transitions += cuts.len() as u64 + 1;
-                match run_partition(spec, &cuts) {
-                    Some(v) => t.violation(v),
-                    None => t.outcome(if spec.bad_end.is_some() { "junk/rejected" } else { "junk/accepted" }),
                 }
             }
         });
